@@ -14,7 +14,7 @@ sys.path.insert(0, os.path.dirname(os.path.abspath(__file__)))
 import vf
 import codec_common as cc
 
-CLASSES = ["valid", "att_len", "att_len2", "frame_len", "frame_tag", "trunc_at", "trunc_in", "len_pm", "len_set", "flip"]
+CLASSES = ["valid", "att_len", "att_len2", "frame_len", "frame_tag", "trunc_at", "trunc_in", "len_pm", "len_set", "flip", "nat_cut"]
 # Gross bound (the statement asks for "a constant multiple of the input length"): decoding into Go structs expands a
 # one-octet item to at most a few hundred bytes of headers (e.g. an empty report list entry), binary.Read adds per-field scratch.
 ALLOC_K = 1 << 20
@@ -49,7 +49,7 @@ def run(ctx):
     lines = cc.run_dec(ctx, binp, casep, tracep)
     cc.account(ctx, lines, "inputs = encodings of generator values with length prefixes replaced by attacker-chosen values, frame length edits, "
                "truncations; non-trivial = distinct inputs in which at least one length prefix is inconsistent with the bytes that follow "
-               "(classes att_len, att_len2, frame_len, len_pm, trunc_*)", lambda r: r["cls"] in ("att_len", "att_len2", "frame_len", "len_pm", "trunc_at", "trunc_in"))
+               "(classes att_len, att_len2, frame_len, len_pm, len_set, nat_cut, trunc_*)", lambda r: r["cls"] in ("att_len", "att_len2", "frame_len", "len_pm", "len_set", "nat_cut", "trunc_at", "trunc_in"))
     mx = 0
     for ln in lines:
         r = json.loads(ln)
